@@ -18,7 +18,7 @@ LEVEL_TEXT = (
     "positive and then affinity == that value and score == probability of the annotation's class (1 - sum when unlabelled), unpaired and geometry-less events with affinity 0 and score 0, "
     "total paired affinity == brute-force optimum, clip score == mean of match scores, overall score == mean of clip scores. Exploration."
 )
-LEVEL_NOTE = "uses compute_affinity (C06) on single pairs with the default buffers as the reference affinity; at least one evaluated sound event overall (with none the sklearn metrics are undefined)"
+LEVEL_NOTE = "reference affinity = closed-form IoU (area IoU of two boxes, 1-D IoU when a time interval is involved) - independent of compute_affinity; at least one evaluated sound event overall (with none the sklearn metrics are undefined)"
 RULE = (
     "Hypothesis strategy vf.evalgen.detection_inputs (time intervals and boxes on a 1/8 s grid in clusters at 0, 8 and 20 s; one in six events has no geometry). "
     "Non-trivial = some evaluated clip has >= 2 events on each side and at least one event that overlaps nothing or has no geometry."
@@ -92,10 +92,12 @@ def check(spec, ctx):
                 ga, gp = m.target.sound_event.geometry, m.source.sound_event.geometry
                 if ga is None or gp is None:
                     ctx.fail("a geometry-less sound event was paired", spec, None, None, kind="geometryless_paired")
-                ref = compute_affinity(gp, ga)
+                ref = evalgen.ref_affinity(c["preds"][p[1]]["geometry"], c["anns"][a[1]]["geometry"])
+                if abs(compute_affinity(gp, ga) - ref) > 1e-9:
+                    ctx.fail(f"compute_affinity of the pair is {compute_affinity(gp, ga)}, the closed-form IoU of the two geometries is {ref}", spec, compute_affinity(gp, ga), ref, kind="affinity")
                 if not ref > 0:
                     ctx.fail(f"prediction {p[1]} is paired with annotation {a[1]} of clip {ci} although their geometries do not overlap (affinity {ref})", spec, [p[1], a[1]], "unpaired", kind="no_overlap_paired")
-                if abs(m.affinity - ref) > 1e-12:
+                if abs(m.affinity - ref) > 1e-9:
                     ctx.fail(f"match reports affinity {m.affinity}, the geometric affinity of the pair is {ref}", spec, m.affinity, ref, kind="affinity")
                 total_aff += ref
                 t = evalgen.first_in_vocab(c["anns"][a[1]]["tags"])
@@ -113,7 +115,7 @@ def check(spec, ctx):
         pi = [k for k, e in enumerate(c["preds"]) if e["geometry"] is not None]
         ann_objs = {index["ann"][str(x.uuid)][1]: x for x in ce.annotations.sound_events}
         pred_objs = {index["pred"][str(x.uuid)][1]: x for x in ce.predictions.sound_events}
-        mat = tuple(tuple(compute_affinity(pred_objs[p].sound_event.geometry, ann_objs[a].sound_event.geometry) for a in ai) for p in pi)
+        mat = tuple(tuple(evalgen.ref_affinity(c["preds"][p]["geometry"], c["anns"][a]["geometry"]) for a in ai) for p in pi)
         best = brute_best_dp(mat, len(pi), len(ai))
         if abs(best - total_aff) > 1e-9:
             ctx.fail(f"clip {ci}: total affinity of the reported pairs {total_aff} is not the optimum {best}", spec, total_aff, best, kind="optimal")
